@@ -71,6 +71,7 @@ pub fn run(spec: RunSpec) -> i32 {
     let known = super::load_known(&format!("{}/known_findings.json", spec.verif_dir));
 
     let mut shards: Vec<ShardRun> = Vec::new();
+    let mut resource_examples: Vec<String> = Vec::new();
     // run all shards concurrently; each shard is a small state machine of attempts
     let mut children: Vec<Option<(std::process::Child, u32)>> = Vec::new();
     for i in 0..spec.nshards {
@@ -121,6 +122,9 @@ pub fn run(spec: RunSpec) -> i32 {
                     };
                     if resource {
                         shards[i].resource += 1;
+                        if resource_examples.len() < 6 {
+                            resource_examples.push(format!("{}: {}", check, truncate(&input.to_string(), 700)));
+                        }
                         eprintln!(
                             "bv: shard {} attempt {}: resource limit ({}) in check {}",
                             i,
@@ -350,6 +354,7 @@ pub fn run(spec: RunSpec) -> i32 {
             "excluded_known": total.excluded_known,
             "discarded": total.discarded,
             "resource_inconclusive": resource,
+            "resource_inconclusive_examples": resource_examples,
             "exhaustive": !exhaustive_all.is_empty() && exhaustive_all.len() == total.per_check.len(),
             "exhaustive_checks": exhaustive_all,
             "shards": spec.nshards,
